@@ -56,6 +56,17 @@ def catalogue():
     for dwf, dwt in [(8, 32), (16, 32), (32, 64), (8, 64)]:
         c.append({"dut": "axil_up", "dw": dwf, "dwt": dwt})
     out = []
+    # adapters inserted by SoCBusHandler.add_adapter: SoC bus standard/width x master standard/width x slave standard/width
+    k = 0
+    for std in ("wishbone", "axi-lite", "axi"):
+        for bdw in (32, 64):
+            for mtype in ("wb", "axil", "axi"):
+                for stype in ("wb", "axil"):
+                    k += 1
+                    mdw, sdw = [(32, 32), (64, 32), (32, 64), (64, 64)][k % 4]
+                    for partner in ("litex", "hostile"):
+                        out.append({"dut": "socbus", "std": std, "bdw": bdw, "mtype": mtype, "dw": mdw, "stype": stype, "sdw": sdw,
+                                    "ic": ["shared", "crossbar"][(k // 4) % 2], "partner": partner})
     for cfg in c:
         for partner in ("litex", "hostile", "err", "err-simple"):
             if partner.startswith("err") and cfg["dut"] in ("axil_sram", "axil2csr", "axil_up"):
@@ -532,6 +543,67 @@ def run_case(case):
         ok = bench.run()
         ref = WindowRefMem(init)
         judge_ahb(m, ref, dw, errs, stats)
+    elif d == "socbus":
+        # the adapters SoCBusHandler.add_adapter inserts for a master / slaves whose standard and width differ from the SoC bus
+        from litex.soc.integration.soc import SoCBusHandler, SoCRegion
+        std, bdw, mtype, stype, sdw = cfg["std"], cfg["bdw"], cfg["mtype"], cfg["stype"], cfg["sdw"]
+        base = 0x10000
+        bus = SoCBusHandler(standard=std, data_width=bdw, address_width=32, timeout=None, interconnect=cfg.get("ic", "shared"),
+                            interconnect_register=(partner == "litex"))
+        top.submodules.socbus = bus
+        mk_if = {"wb": lambda w: wishbone.Interface(data_width=w, adr_width=32 - ((w // 8).bit_length() - 1)),
+                 "axil": lambda w: axi.AXILiteInterface(data_width=w, address_width=32),
+                 "axi": lambda w: axi.AXIInterface(data_width=w, address_width=32)}
+        mbus = mk_if[mtype](dw)
+        bus.add_master("m", master=mbus)
+        sb0, sb1 = mk_if[stype](sdw), mk_if[stype](sdw)
+        size = WORDS * nb                                   # the window the master's script works in, in bytes
+        saved = WORDS
+        globals()["WORDS"] = size * 8 // sdw               # words of the slave's own width
+        try:
+            if stype == "wb":
+                init, slv, smons = add_wb_backing(top, bench, rng, sb0, sdw, partner)
+            else:
+                init, slv, smons = add_axil_backing(top, bench, rng, sb0, sdw, partner, hostile)
+        finally:
+            globals()["WORDS"] = saved
+        # a second slave of the same kind behind its own region (forces a decoder; must never be touched)
+        decoy_init = [rng.getrandbits(sdw) for _ in range(16)]
+        if stype == "wb":
+            top.submodules.decoy = decoy = wishbone.SRAM(16 * sdw // 8, init=list(decoy_init), bus=sb1)
+        else:
+            top.submodules.decoy = decoy = axi.AXILiteSRAM(16 * sdw // 8, init=list(decoy_init), bus=sb1)
+        bus.add_slave("s0", slave=sb0, region=SoCRegion(origin=base, size=size))
+        bus.add_slave("s1", slave=sb1, region=SoCRegion(origin=0x20000, size=0x100))
+        if mtype == "wb":
+            ops = gen_wb_ops(rng, dw, base // nb, n * 2)
+            m = bench.add(WBMaster(mbus, ops, "m", max_wait=3000))
+        elif mtype == "axil":
+            writes, reads = gen_axil_script(rng, dw, base, n)
+            m = mk_axil_master(bench, rng, mbus, writes, reads, "litex", hostile)
+        else:
+            writes, reads = gen_axi_script(rng, dw, base, n, feature="incr")
+            m = mk_axi_master(bench, rng, mbus, writes, reads, "litex", hostile)
+        if mtype != "wb":
+            mm = port_monitors(bench, mbus, "master-side", "responses")
+            bench.add(ActivityWatch(list(mm.values()), hostile, quiet=400))
+            smons = smons + list(mm.values())
+        ok = bench.run()
+        ref = WindowRefMem(init)
+        if mtype == "wb":
+            judge_wb(m, ops, ref, dw, errs, stats, False)
+        elif mtype == "axil":
+            judge_axil(m, ref, base, dw, errs, stats)
+        else:
+            judge_axi(m, ref, base, dw, errs, stats)
+        # the decoy slave was never written
+        arr = bench.sim.evaluator.replaced_memories.get(decoy.mem)
+        if arr is not None and not errs:
+            sv = bench.sim.evaluator.signal_values
+            now = [sv.get(x, x.reset.value) for x in arr]
+            if now != decoy_init:
+                k = next(i for i, (x, y) in enumerate(zip(now, decoy_init)) if x != y)
+                errs.append({"kind": "write-reached-another-slave", "decoy_word": k, "was": decoy_init[k], "now": now[k]})
     else:
         raise ValueError(d)
     stab = 0
